@@ -24,6 +24,32 @@ CLAIMS = {
             "every older object's denotation, for every history (induction over the operation list); the __init__ guard is read from the "
             "source. Differential run over trees and object histories (identity-aware).",
             "DESIGN.md section 7 C02"),
+    "C03": ("13 theorems (ValidaProofs/C03.lean): the level-by-level frontier walk of DataPath.get_data with its two parallel lists equals "
+            "the depth-first part-by-part walk (ValidaSpec/Walk.lean) for every path length and fan-out (induction over the parts, "
+            "generalised over the frontier), the lock-step index never fails, inapplicable parts match nothing, a step raises nothing, "
+            "primitive parts match by key/index equality. The except-tuple of get_data is generated from the source. Differential run "
+            "through all entry points plus an independent Python reference walk.", "DESIGN.md section 7 C03"),
+    "C04": ("11 theorems (ValidaProofs/C04.lean): every (value, path) of the walk indexes the document to that value, paths pairwise "
+            "distinct, same values with and without paths, datum / multiplicity modifiers by definition, both application orders "
+            "commute, multiplicity refused on concrete paths. Differential run over every datum x multiplicity modifier in both orders.",
+            "DESIGN.md section 7 C04"),
+    "C05": ("5 theorems (ValidaProofs/C05.lean): filtering the selection with paths equals filtering the plain values for every tree "
+            "shape (paths extracted once, at the left-most leaf), a false item always has a reason, untested/valid when nothing is "
+            "selected, the verdict and the exact failure list. Differential run of Rule.test plus an independent reference verdict.",
+            "DESIGN.md section 7 C05"),
+    "C06": ("6 theorems (ValidaProofs/C06.lean): aggregates, stable sort by path length (sort key read from the source), cast-free rules "
+            "judged independently, permutation invariance of validity / failure count / tested count. The textual report is checked on the "
+            "implementation only (always a str naming every failing path).", "DESIGN.md section 7 C06"),
+    "C07": ("6 theorems (ValidaProofs/C07.lean): for modifier-free paths and value-kind literal-argument conditions, the walk, the "
+            "selection, a rule test and a whole cast-free validation raise nothing whatever the document; a declared cast raises nothing "
+            "(except-tuple of Rule.test generated from the source). PARTIAL for schemas with casts: the write-back `setAt` is shown not to "
+            "fail only by the differential run and the direct never-raises predicate on type-hostile documents, not by a theorem.",
+            "DESIGN.md section 7 C07"),
+    "C15": ("10 theorems (ValidaProofs/C15.lean): cast tables of the source, cast_string_to_bool, uncastable types untouched, a failing cast "
+            "leaves the node, the rule is judged on the copy, one-level write semantics, nothing castable leaves the copy unchanged, cast data "
+            "is the copy after all rules. The model is purely functional: that the caller's document is untouched is checked on the "
+            "implementation (C08). Differential run over castable/uncastable strings under keys of every type.",
+            "DESIGN.md section 7 C15"),
 }
 
 
